@@ -555,10 +555,10 @@ TECHNIQUE = {
     "C01": "deductive verification (Verus per-stream contracts + builder/DirSection units) + Kani bounded/complete harnesses for what Verus cannot read",
     "C02": "deductive verification of panic-freedom/termination obligations (Verus) + Kani bounded harnesses + bounded-exhaustive native contract checks",
     "C03": "Kani harnesses of the attach/detach protocol against stubbed ptrace (contract stubs), complete control-flow harness of dump()",
-    "C04": "Kani complete proof of the register map + bounded/complete control-flow harnesses against contract stubs",
-    "C05": "deductive verification (Verus) of exception_stream::write + Kani complete proof of the crash-context register map",
-    "C06": "deductive verification (Verus): postconditions of get_stack_info / fill_thread_stack / find_mapping / may_be_stack on verbatim text; Kani and live-target native checks for the limit selection",
-    "C07": "deductive verification (Verus): postconditions of fill_thread_stack / memory_list_stream::write / app_memory::write; Kani and a live-target native check for the IP window",
+    "C04": "deductive verification (Verus): thread_list_stream::write proved for any number of threads (one record per thread, own id, own context) + Kani complete proof of the register map + bounded/complete control-flow harnesses against contract stubs",
+    "C05": "deductive verification (Verus) of exception_stream::write and of the crash-context branch of thread_list_stream::write (any thread count) + Kani complete proof of the crash-context register map",
+    "C06": "deductive verification (Verus): postconditions of get_stack_info / fill_thread_stack / find_mapping / may_be_stack on verbatim text and of thread_list_stream::write (which threads are limited, for any thread count); Kani and live-target native twins",
+    "C07": "deductive verification (Verus): postconditions of fill_thread_stack / thread_list_stream::write (stacks listed, IP window) / memory_list_stream::write / app_memory::write; Kani and a live-target native twin for the IP window",
     "C08": "deductive verification (Verus) of the module filter predicates + bounded-exhaustive native contract checks of naming and ordering",
     "C09": "deductive verification (Verus): DirSection representation invariant proved function by function against an assumed std::io model",
     "C10": "deductive verification (Verus): flush-before-entry precondition of dump_dir_entry discharged at its call site; Kani control-flow harness",
@@ -574,13 +574,13 @@ TECHNIQUE = {
     "C20": "deductive verification (Verus): biconditional postcondition of fill_thread_stack and crash_thread_references_principal_mapping, the stack scanner proved for any length; Kani cross-check of the scanner",
 }
 LEVEL_TEXT = {
-    "C01": "unbounded proofs for the builder, the directory writer and four stream writers (thread stacks, memory list, exception, app memory); bounded Kani checks for thread names, arrays and strings; complete control-flow proof (relative to contract stubs) that exactly the declared number of entries is emitted. Streams whose bodies read /proc are covered only through the builder primitives they call",
+    "C01": "unbounded proofs for the builder (incl. arrays of any length), the directory writer and five stream writers (thread list for any thread count, thread stacks, memory list, exception, app memory); bounded Kani checks for thread names, arrays and strings; complete control-flow proof (relative to contract stubs) that exactly the declared number of entries is emitted. Streams whose bodies read /proc are covered only through the builder primitives they call",
     "C02": "unbounded proof of overflow/bounds/termination obligations for the Verus-readable functions of the dump path (incl. the stack scanner, the mapping lookups, app memory, the module filters); bounded Kani and bounded-exhaustive native checks for the parsers Verus cannot read (ELF identification, SoVersion, dso_debug on a fake target)",
     "C03": "bounded/complete checks of the writer's side of the ptrace protocol against contract stubs; a native check that a live target runs again after every return path of dump(); the kernel's side (signal delivery, scheduling) is out of reach and not claimed",
-    "C04": "complete proof (all register contents) of the thread register map; bounded checks of thread retention and of the per-thread loop; complete control-flow proofs relative to stubs (thorough tier)",
-    "C05": "unbounded proof of the exception record, complete proof of the crash-context register map, bounded check that the blamed thread shares that context (thorough)",
-    "C06": "unbounded proof over all stack pointers, mapping lists and page sizes of the stack-capture postconditions (containment of SP, page start, extent, 2 KiB cap), relative to the reader contract; the first-plausible-mapping rule for stack pointers in a guard page; the lookups find_mapping / may_be_stack proved for mapping lists of any length; bounded Kani and live-target native checks of which threads are limited",
-    "C07": "unbounded proof that stack regions, application-requested regions (any number) and the serialised memory list are faithful, relative to the reader contract; bounded Kani and live-target native checks for the IP window",
+    "C04": "unbounded proof that thread_list_stream::write emits exactly one record per retained thread, in order, with that thread's id and a context blob equal to the register map applied to what ptrace reports for that thread (relative to the loop-head desugaring and the callee contracts); complete proof (all register contents) of the register map; bounded checks of thread retention (suspend_threads, 3 threads) and of the attach protocol; complete control-flow proofs relative to stubs (thorough tier)",
+    "C05": "unbounded proof of the exception record; unbounded proof (any thread count) that the blamed thread's list entry carries the crash context's registers and that the context location handed to the exception stream is that entry's blob; complete proof of the crash-context register map; live-target native check with a secondary blamed thread",
+    "C06": "unbounded proof over all stack pointers, mapping lists and page sizes of the stack-capture postconditions (containment of SP, page start, extent, 2 KiB cap), relative to the reader contract; the first-plausible-mapping rule for stack pointers in a guard page; the lookups find_mapping / may_be_stack proved for mapping lists of any length; which threads are limited (only list positions >= 20, never the crash-context thread, 2 KiB exactly when the estimate exceeds the limit) proved on thread_list_stream::write for any thread count, with bounded Kani and live-target native twins",
+    "C07": "unbounded proof that stack regions, application-requested regions (any number) and the serialised memory list are faithful, relative to the reader contract; unbounded proof (any thread and mapping count) that every non-empty stack is listed and that the IP window is [max(start, ip-128), min(end, ip+128)) of the first mapping containing ip with the target's bytes; bounded Kani and live-target native twins for the IP window",
     "C08": "unbounded proofs of the three module filters (user-mapping containment for any list length); module naming, SONAME substitution and entry-point-first by bounded-exhaustive native checks; build-id equality with an independent reader is not decided",
     "C09": "unbounded proof, for every start offset, pre-existing destination content, image and operation, that each DirSection operation preserves 'flushed prefix == image' and touches nothing outside [start, start+|image|), relative to the assumed Write/Seek semantics",
     "C10": "unbounded proof that no directory entry reaches the destination before the bytes it can reference (the obligation that failed on the pinned tree and was repaired); complete control-flow proof that generate_dump emits entries only through write_to_file (thorough)",
